@@ -213,20 +213,24 @@ _add(PropertySpec(
 
 
 _add(PropertySpec(
-    'C19', 'other',
+    'C19', 'proof',
     functions=['ampycloud.scaler.shift_and_scale', 'ampycloud.scaler.minmax_scale', 'ampycloud.scaler.minrange2minmax',
-               'ampycloud.scaler.convert_kwargs', 'ampycloud.scaler.apply_scaling'],
-    lemmas=['prop.C19.sas.order', 'prop.C19.sas.inverse', 'prop.C19.mm.range', 'prop.C19.mm.order', 'prop.C19.mm.inverse', 'prop.C19.mm.minrange'],
+               'ampycloud.scaler.convert_kwargs', 'ampycloud.scaler.apply_scaling', 'ampycloud.scaler.step_scale'],
+    lemmas=['prop.C19.sas.order', 'prop.C19.sas.inverse', 'prop.C19.mm.range', 'prop.C19.mm.order', 'prop.C19.mm.inverse', 'prop.C19.mm.minrange'] +
+           [f'prop.C19.step.{m}.{w}.L{L}' for L in range(5) for m in ('do', 'undo') for w in ('mono', 'inverse', 'continuous')],
     bounded=_bounded('c19'),
     explanation=('PROVED (P, floats as reals): shift_and_scale, minmax_scale, minrange2minmax, convert_kwargs and apply_scaling are symbolically '
                  'executed from their real ASTs over arrays of symbolic length (element-wise dialect; NaN-ignoring reductions as ghost values '
                  'with their defining facts): element-wise formulas for do / undo, NaN entries stay NaN and do not enter the derived shift / '
                  'interval, the derived interval contains all data and is at least min_range wide, all-NaN passthrough, errors for unknown '
                  'names / underivable parameters; order preservation, undo(do(x)) = x and the [0,1] image are lemmas over the element-wise '
-                 'formulas.  NOT UNDER CONTRACT: step_scale (concrete-length list arithmetic) -- its clauses (monotone, continuous, '
-                 'invertible) are checked only by the bounded run, which also re-checks the other modes natively.'),
-    assumptions=[A_REAL, 'scale > 0 and span >= 1e-6 as in the property\'s quantifier'],
-    not_decided=['step scaling for all step lists (bounded only)', 'floating-point error of undo(do(x)) (exact only in the reals)'],
+                 'formulas.  step_scale (real AST; the step / scale lists have the concrete lengths 0..4 of the property\'s own quantifier, '
+                 'their values and the value array are symbolic): refusal conditions exact (length mismatch, unsorted steps, unknown '
+                 'mode), NaN-blind, element-wise equal to the piecewise-affine spec function, order-preserving (lemma: the spec function is '
+                 'strictly increasing), continuous across every step edge and inverted by the opposite mode (lemmas over the spec '
+                 'function, one per list length and mode).  The bounded run re-checks all modes natively.'),
+    assumptions=[A_REAL, 'scale > 0 and span >= 1e-6 as in the property\'s quantifier', 'step lists of length 0..4 (the property\'s quantifier)'],
+    not_decided=['floating-point error of undo(do(x)) (exact only in the reals)', 'step lists longer than 4 (outside the property\'s quantifier)'],
 ))
 
 
